@@ -32,7 +32,6 @@ structure St where
   opened : Bool := false
   specOn : Bool := true      -- false once the history left the discipline (Spec no longer applies)
   pending : Bool := false    -- an input operation since the last seek/flush (ISO C discipline)
-  kfTrunc : Bool := false    -- io.output(name) met a non-empty file: the next disk snapshot shows finding C19-io-output-no-truncate
 
 def hexVal (c : UInt8) : UInt8 :=
   if c ≥ 48 && c ≤ 57 then c - 48 else if c ≥ 97 && c ≤ 102 then c - 87
@@ -121,30 +120,19 @@ def bitsDenote (neg : Bool) (n d : Nat) (bits : Nat) : Bool :=
     (if e == 0 then isNearest n d m (-1074) false
      else isNearest n d (m + 2 ^ 52) ((e : Int) - 1075) (m == 0 && e > 1))
 
-/-- the value the Model's token denotes (what `strconv.ParseFloat` must return), checked against the bits -/
-def tokDenotes (tok : Bytes) (bits : Nat) : Bool :=
-  let e := (bits / 2 ^ 52) % 2048
-  let m := bits % 2 ^ 52
-  let l := tok.map IoFile.lowerByte
-  if l = [110, 97, 110] then e == 2047 && m != 0
-  else if IoFile.isSpecialTok tok then e == 2047 && m == 0 && ((bits / 2 ^ 63 == 1) == (tok.head? == some 45))
-  else if (IoFile.indexP tok).isSome && !(tok.any fun c => c = 120 ∨ c = 88) then true     -- 1.5p3: math.Ldexp, not checked
-  else
-    match IoFile.readFloat tok with
-    | none => false
-    | some (lit, _) =>
-      let b : Nat := if lit.hex then 2 else 10
-      if lit.exp ≥ 0 then bitsDenote lit.neg (lit.mant * b ^ lit.exp.toNat) 1 bits
-      else bitsDenote lit.neg lit.mant (b ^ (-lit.exp).toNat) bits
-
-/-- the value a numeral of the Spec denotes, checked against the bits -/
+/-- the value a numeral (of the Spec, or a token of the Model: both are Lua numerals) denotes, checked against the
+    bits: the correctly rounded double, ±Inf when the value is out of range (`parseNumber` tolerates `ErrRange`;
+    C: HUGE_VAL), ±0 when it is zero or rounds to zero. -/
 def specDenotes (tok : Bytes) (bits : Nat) : Bool :=
   let v := numValue tok
-  -- zero, or so small that it rounds to zero (mant < 10^|tok|, the smallest subnormal is 4.9e-324): ±0, no big powers
-  if v.mant = 0 ∨ v.e10 < -(2000 : Int) - tok.length then bits % 2 ^ 63 == 0 && ((bits / 2 ^ 63 == 1) == v.neg)
-  else if v.e10 > 400 then false
+  let sign := bits / 2 ^ 63 == 1
+  -- zero, or so small that it rounds to zero (mant < 10^|tok|, the smallest subnormal is 4.9e-324): no big powers
+  if v.mant = 0 ∨ v.e10 < -(2000 : Int) - tok.length then bits % 2 ^ 63 == 0 && (sign == v.neg)
+  else if !roundsFinite v then bits % 2 ^ 63 == 2047 * 2 ^ 52 && (sign == v.neg)
   else if v.e10 ≥ 0 then bitsDenote v.neg (v.mant * 10 ^ v.e10.toNat) 1 bits
   else bitsDenote v.neg v.mant (10 ^ (-v.e10).toNat) bits
+
+def tokDenotes (tok : Bytes) (bits : Nat) : Bool := specDenotes tok bits
 
 /-- does the implementation's reply agree with a result of the Model / Spec?  `numAt i`: the i-th value is a number. -/
 def agree (den : Bytes → Nat → Bool) (numAt : Nat → Bool) (r : Res) (i : IRes) : Bool :=
@@ -248,40 +236,6 @@ def numKindsSpec (fs : List Fmt) : Nat → Bool :=
   let ex := (if fs = [] then [Fmt.line] else fs)
   fun i => (ex[i]?.map classify) = some (.is .num)
 
-/-- the first `*n` of a read, as the Spec walks the formats, that meets a text of the given kind:
-    the formats before it delivered values (how many), the class of the text. -/
-def firstNumHit (b : Bytes) (cur : Nat) (n : Nat) (p : NumClass → Bool) : List Fmt → Option Nat
-  | [] => none
-  | f :: fs =>
-    match classify f with
-    | .is g =>
-      if g = .num ∧ p (numClass (b.drop cur)) then some n
-      else
-        match readFmt b cur g with
-        | (none, _) => none
-        | (some _, c) => firstNumHit b c (n + 1) p fs
-    | _ => none
-
-def hasLF (ws : Bytes) : Bool := ws.contains 10
-
-/-- known deviations of `read` (the Model reproduces the reply `r`; the Spec's answer is `sr`) -/
-def readKF (s : Stream) (fs : List Fmt) (r : IRes) (sr : Res) : Option String :=
-  let fs' := if fs = [] then [Fmt.line] else fs
-  -- the Spec raised because of the lone star (whatever the implementation went on to do with the later formats)
-  if sr = .raise ∧ fs'.find? (fun f => classify f == .invalid) = some (.str [42]) then
-    some "KF:C19-read-lone-star the format \"*\" reads nothing and returns nothing instead of raising"
-  else if r = .fail then
-    if (firstNumHit s.bytes s.cur 0 (fun | .value ws _ => hasLF ws | .eof ws => hasLF ws | .nomatch ws => hasLF ws | _ => false) fs').isSome then
-      some "KF:C19-readnum-rejects-newline `*n` fails with \"unexpected newline\" when a line feed is among the white space before the numeral"
-    else if (firstNumHit s.bytes s.cur 0 (fun | .value _ tok => (hexNumeral tok).isSome | _ => false) fs').isSome then
-      some "KF:C19-readnum-rejects-hex `*n` does not read a hexadecimal integer (0x10)"
-    else
-      match firstNumHit s.bytes s.cur 0 (fun | .nomatch _ => true | _ => false) fs' with
-      | some 0 => none
-      | some _ => some "KF:C19-read-failure-drops-results a `*n` that finds no numeral makes read return nil,msg,1 without the values read by the earlier formats"
-      | none => none
-  else none
-
 def handle (st : St) (ws : List String) : St × Verdict :=
   let (args, impl) := splitArrow ws
   match args with
@@ -300,14 +254,10 @@ def handle (st : St) (ws : List String) : St × Verdict :=
         let mv := if b = st.m.f.disk then none else some ("s" ++ hexEncode st.m.f.disk)
         -- "visible after flush/close": compared with the Spec only when no write is still buffered
         let pend : Bool := match st.m.f.writer with | .buffered _ p => !p.isEmpty | _ => false
-        if !st.specOn || pend || b == st.s.s.bytes then ({ st with kfTrunc := false }, { model := mv })
-        else if st.kfTrunc ∧ mv.isNone then
-          -- recorded finding; the Spec goes on from the file as it is
-          ({ st with kfTrunc := false, s := { st.s with s := { st.s.s with bytes := b } } },
-           { model := mv, spec := some "KF:C19-io-output-no-truncate io.output(name) does not truncate an existing file (liolib opens it in mode \"w\")" })
-        else
-          (st, { model := mv, spec := some ("disk differs from the byte sequence of the Spec (spec length " ++ toString st.s.s.bytes.length ++
-                             ", disk length " ++ toString b.length ++ ")") })
+        let sv := if !st.specOn || pend || b == st.s.s.bytes then none
+                  else some ("disk differs from the byte sequence of the Spec (spec length " ++ toString st.s.s.bytes.length ++
+                             ", disk length " ++ toString b.length ++ ")")
+        (st, { model := mv, spec := sv })
     | _ => (st, { model := some "bad-reply" })
   | ["iotypeother"] =>
     -- io.type(x) for four values that are not file handles: nil each time (Lua 5.1 manual: "nil if obj is not a file handle")
@@ -348,34 +298,18 @@ def handle (st : St) (ws : List String) : St × Verdict :=
         | none => true
       -- an unspecified read: the Spec continues from where the implementation (= the Model) left the cursor
       let s' : WStream := if specified then s' else { s' with s := { s'.s with cur := IoFile.cursor m'.f } }
-      let kfTrunc := st.kfTrunc || (wop = .ioOutputName && !st.s.s.bytes.isEmpty)
       let isLines : Bool := match eop with | some .lines => true | _ => false
       let sv : Option String :=
         if !specOn || !specified then none
         else if agree specDenotes sk sr r then none
         -- not fixed by the property: what `lines` returns on a handle that cannot be read (iterating it raises either way)
         else if isLines ∧ !st.s.s.canRead ∧ !st.s.s.closed then none
-        -- `*n` that finds no numeral, first format: nil (Spec) / nil, message, 1 (implementation): both "nil on failure"
-        else if r == .fail && (match sr with | .vals [none] => true | _ => false) &&
-                (match rfs with | some fs => (firstNumHit st.s.s.bytes st.s.s.cur 0 (fun | .nomatch ws => !hasLF ws | _ => false) fs) == some 0 | none => false) then
-          -- … but the cursor must stay in front of the byte that is not a numeral; by the Model (which the implementation
-          -- has matched on every observation) an exponent letter and the sign/digits after it are consumed
-          if mv.isNone ∧ IoFile.cursor m'.f ≠ s'.s.cur then
-            some ("KF:C19-readnum-consumes-exponent-letter a failing `*n` consumes a leading e/E/p/P and the sign and digits after it; cursor " ++
-                  toString (IoFile.cursor m'.f) ++ ", spec cursor " ++ toString s'.s.cur)
-          else none
         else if mv.isNone ∧ (eop.bind (specResCR st.s.s)).map (fun x => agree specDenotes sk x r) = some true then
           some ("KF:C19-readline-strips-cr line read drops the CR before LF; spec=" ++ showRes sk sr)
-        else if mv.isNone ∧ (rfs.bind fun fs => readKF st.s.s fs r sr).isSome then
-          (rfs.bind fun fs => readKF st.s.s fs r sr).map fun t => t ++ "; spec=" ++ showRes sk sr
-        else if mv.isNone ∧ sr = .raise ∧ r = .ok ∧ (wop = .ioInput ∨ wop = .ioOutput ∨ wop = .ioLines) then
-          some "KF:C19-default-file-closed-no-raise io.input(f) / io.output(f) / io.lines() accept a closed handle without raising"
         else some ("op " ++ " ".intercalate (args.take 1) ++ " spec=" ++ showRes sk sr)
       -- after a recorded deviation of a read the Spec also continues from the implementation's cursor
       let s' : WStream := if sv.isSome ∧ mv.isNone ∧ rfs.isSome then { s' with s := { s'.s with cur := IoFile.cursor m'.f } } else s'
-      -- … and (recorded deviation "a closed handle is accepted as default file") with the implementation's default slots
-      let s' : WStream := { s' with defIn := m'.defIn, defOut := m'.defOut }
-      ({ st with m := m', s := s', specOn := specOn, pending := pending, kfTrunc := kfTrunc }, { model := mv, spec := sv })
+      ({ st with m := m', s := s', specOn := specOn, pending := pending }, { model := mv, spec := sv })
     | _, _ => (st, { model := some "bad-op" })
 
 end GLua.Eng.IoEng
